@@ -55,12 +55,16 @@ class SimInBuf : public std::streambuf {
   size_t fetched = 0;       // bytes handed to the get area so far
   char cur = 0;
   int id;
+  std::string block;        // block mode: what one read(2) of an unsynchronised cin would have fetched
 public:
   bool eofReported = false;
   unsigned eofReads = 0;    // how often the reader hit end of data
+  // Block mode models std::ios::sync_with_stdio(false): cin then owns a buffer and takes input from
+  // the descriptor a block at a time, so the process consumes more than the program has looked at.
+  bool blockMode = false;
   explicit SimInBuf(int id = 0) : id(id) { setg(&cur, &cur + 1, &cur + 1); }
-  void load(const std::string &bytes) { data = bytes; fetched = 0; eofReported = false; eofReads = 0; setg(&cur, &cur + 1, &cur + 1); }
-  size_t consumed() const { return fetched - (gptr() < egptr() ? 1 : 0); }
+  void load(const std::string &bytes) { data = bytes; fetched = 0; eofReported = false; eofReads = 0; blockMode = false; block.clear(); setg(&cur, &cur + 1, &cur + 1); }
+  size_t consumed() const { return blockMode ? fetched : fetched - (gptr() < egptr() ? 1 : 0); }
   size_t size() const { return data.size(); }
 protected:
   int_type underflow() override;
@@ -80,6 +84,8 @@ protected:
 };
 
 // Owns the three buffers and swaps them into std::cin/cout/cerr.
+struct StdStreams;
+extern StdStreams *g_stdStreams;      // the attached instance, for the sync_with_stdio seam
 struct StdStreams {
   SimInBuf in{0};
   SimOutBuf out{1}, err{2};
